@@ -349,6 +349,37 @@ impl LpgStore {
         EpochId::new(id)
     }
 
+    /// Moves the store's epoch forward to `epoch` (never backwards).
+    ///
+    /// The transaction manager owns the epoch counter; the session layer calls this
+    /// after every commit so that non-transactional reads and enumerations
+    /// (`node_ids`, `node_count`, ...) see exactly the committed state.
+    pub fn sync_epoch(&self, epoch: EpochId) {
+        self.current_epoch
+            .fetch_max(epoch.as_u64(), Ordering::AcqRel);
+    }
+
+    /// The epoch to stamp on a version created inside a still-open transaction
+    /// that began at `start_epoch`.
+    ///
+    /// Such versions are stamped [`EpochId::PENDING`] so that only their creator
+    /// sees them; [`finalize_versions`](Self::finalize_versions) re-stamps them at
+    /// commit.
+    #[must_use]
+    #[cfg(not(feature = "tiered-storage"))]
+    pub fn uncommitted_stamp(&self, _start_epoch: EpochId) -> EpochId {
+        EpochId::PENDING
+    }
+
+    /// The epoch to stamp on a version created inside a still-open transaction.
+    /// (Tiered storage version: hot versions live in per-epoch arenas, so they keep
+    /// the transaction's start epoch.)
+    #[must_use]
+    #[cfg(feature = "tiered-storage")]
+    pub fn uncommitted_stamp(&self, start_epoch: EpochId) -> EpochId {
+        start_epoch
+    }
+
     // === Node Operations ===
 
     /// Creates a new node with the given labels.
@@ -1653,11 +1684,12 @@ impl LpgStore {
         true
     }
 
-    /// Returns the number of nodes (non-deleted at current epoch).
+    /// Returns the number of live nodes, including those created by transactions
+    /// that are still open.
     #[must_use]
     #[cfg(not(feature = "tiered-storage"))]
     pub fn node_count(&self) -> usize {
-        let epoch = self.current_epoch();
+        let epoch = EpochId::PENDING;
         self.nodes
             .read()
             .values()
@@ -1723,6 +1755,28 @@ impl LpgStore {
                 })
             })
             .collect();
+        ids.sort_unstable();
+        ids
+    }
+
+    /// Returns the ID of every node that has a version, visible or not.
+    ///
+    /// A transaction-aware scan starts from this and keeps what its own snapshot
+    /// (and its own uncommitted work) can see.
+    #[must_use]
+    #[cfg(not(feature = "tiered-storage"))]
+    pub fn all_node_ids(&self) -> Vec<NodeId> {
+        let mut ids: Vec<NodeId> = self.nodes.read().keys().copied().collect();
+        ids.sort_unstable();
+        ids
+    }
+
+    /// Returns the ID of every node that has a version, visible or not.
+    /// (Tiered storage version)
+    #[must_use]
+    #[cfg(feature = "tiered-storage")]
+    pub fn all_node_ids(&self) -> Vec<NodeId> {
+        let mut ids: Vec<NodeId> = self.node_versions.read().keys().copied().collect();
         ids.sort_unstable();
         ids
     }
@@ -2050,11 +2104,12 @@ impl LpgStore {
         }
     }
 
-    /// Returns the number of edges (non-deleted at current epoch).
+    /// Returns the number of live edges, including those created by transactions
+    /// that are still open.
     #[must_use]
     #[cfg(not(feature = "tiered-storage"))]
     pub fn edge_count(&self) -> usize {
-        let epoch = self.current_epoch();
+        let epoch = EpochId::PENDING;
         self.edges
             .read()
             .values()
@@ -2106,6 +2161,33 @@ impl LpgStore {
             // Remove completely empty chains (no versions left)
             edges.retain(|_, chain| !chain.is_empty());
         }
+    }
+
+    /// Publishes the versions a transaction created: every version stamped
+    /// [`EpochId::PENDING`] by `tx_id` is re-stamped with `commit_epoch`, and the
+    /// store's epoch moves forward to it.
+    #[cfg(not(feature = "tiered-storage"))]
+    pub fn finalize_versions(&self, tx_id: TxId, commit_epoch: EpochId) {
+        {
+            let mut nodes = self.nodes.write();
+            for chain in nodes.values_mut() {
+                chain.finalize_versions_by(tx_id, commit_epoch);
+            }
+        }
+        {
+            let mut edges = self.edges.write();
+            for chain in edges.values_mut() {
+                chain.finalize_versions_by(tx_id, commit_epoch);
+            }
+        }
+        self.sync_epoch(commit_epoch);
+    }
+
+    /// Publishes the versions a transaction created.
+    /// (Tiered storage version: versions already carry a real epoch.)
+    #[cfg(feature = "tiered-storage")]
+    pub fn finalize_versions(&self, _tx_id: TxId, commit_epoch: EpochId) {
+        self.sync_epoch(commit_epoch);
     }
 
     /// Discards all uncommitted versions created by a transaction.
